@@ -4,6 +4,7 @@
 -/
 import GeonumModel.Lemmas.AngleStep
 import GeonumModel.Spec.RealWitness
+import GeonumModel.Lemmas.Exact
 
 set_option linter.unusedSectionVars false
 set_option linter.unusedVariables false
@@ -124,8 +125,37 @@ theorem add_sub_cancel {a b : Angle F} (ha : a.Inv) (hb : b.Inv) :
 
 end S
 
-/-! PARTIAL (not yet proved here; explored by the oracle clause `divf`): `T(a/k) ≈ T(a)/k` for the `Div<f64>` impl (needs the
-    general-path decomposition `newCore_spec` composed with the rounding of `blade·(π/2)+rem` and of the division). -/
+/-! ### E-tier: dividing an angle by a positive number -/
+section E
+open GeonumModel.Exact
+
+/-- (E) **`a / k` divides the total by `k`** (no whole turns added, slack below `1e-10`), for every `k > 0` with `T a / k ≤ 2^42`;
+    in particular `a / 1` returns `a`'s total -/
+theorem divF_total_real {a : Angle ℝ} {k : ℝ} (ha : a.Inv) (hk : 0 < k) (hb : Exact.T a / k ≤ 2 ^ 42) :
+    ∃ δ : ℝ, |δ| < 1 / 10 ^ 10 ∧ Exact.T (a.divF k) = Exact.T a / k + δ ∧ a.divFR k = a.divF k := by
+  have hpi := Real.pi_pos
+  have hT0 : 0 ≤ Exact.T a := by
+    unfold Exact.T
+    have : 0 ≤ a.rem := ha.2.1
+    positivity
+  have hdef : a.divF k = Angle.new (Exact.T a / k) Real.pi := by
+    unfold Angle.divF
+    simp only [r_add, r_mul, r_div, pi_real, lit_real.2.2.1]
+    rfl
+  have hq : Exact.T a / k * Real.pi / Real.pi = Exact.T a / k := by field_simp
+  have h0 : 0 ≤ Exact.T a / k * Real.pi / Real.pi := by rw [hq]; positivity
+  have hb' : |Exact.T a / k * Real.pi / Real.pi| ≤ 2 ^ 42 := by rw [hq, abs_of_nonneg (by positivity)]; exact hb
+  have hfast : (feq (Real.pi : ℝ) (two : ℝ) && feq (FloatLike.fract (Exact.T a / k)) (zero : ℝ)) = false := by
+    have : feq (Real.pi : ℝ) (two : ℝ) = false := by
+      rw [lit_real.2.2.1, r_eq]
+      have := Real.pi_gt_three
+      simp; linarith
+    simp [this]
+  obtain ⟨δ, hδ, hT⟩ := new_total_nonneg_real hb' h0 hfast
+  rw [hq] at hT
+  exact ⟨δ, hδ, by rw [hdef]; exact hT, rfl⟩
+
+end E
 
 example {F : Type} [FloatSpec F] : (⟨zero, 3⟩ : Angle F).Inv ∧ (⟨zero, 5⟩ : Angle F).Inv := ⟨inv_zero 3, inv_zero 5⟩
 
